@@ -15,7 +15,7 @@ CONSTANTS
   MaxFaults = 0
   Concurrent = TRUE
   WithRejects = FALSE
-  ExportOneIn = 1
+  ExportOneIn = 10
   RecoveryCrashes = FALSE
   Batch = FALSE
 INVARIANTS NoViolation CacheCounterExact ChunksAbut DurableIsPrefix Export 
